@@ -78,8 +78,28 @@ func (e *Env) state() *State {
 
 func (e *Env) lookupIdent(name string) (SV, bool, error) {
 	vc := e.vc
+	// inside a loop a reassigned variable (header phi) shadows the parameter of the same name;
+	// the entry value of parameter p is always available as p0
+	if e.li != nil && e.phis != nil && e.fr != nil {
+		for _, in := range e.li.header.Instrs {
+			ph, ok := in.(*ssa.Phi)
+			if !ok {
+				break
+			}
+			if ph.Comment == name {
+				if t, ok := e.phis[ph]; ok {
+					return SV{T: t, Ty: ph.Type()}, true, nil
+				}
+			}
+		}
+	}
 	if v, ok := e.names[name]; ok {
 		return v, true, nil
+	}
+	if strings.HasSuffix(name, "0") {
+		if v, ok := e.names[strings.TrimSuffix(name, "0")]; ok {
+			return v, true, nil
+		}
 	}
 	if c, ok := specConsts[name]; ok {
 		v, _ := new(big.Int).SetString(c, 10)
@@ -872,15 +892,30 @@ func (e *Env) evalCall(n *spec.Call) (SV, error) {
 			sorts = append(sorts, a.T.Sort)
 		}
 		rs := SInt
+		var rty types.Type
 		if strings.HasPrefix(n.Fun, "uf_b_") {
 			rs = SBool
 		}
-		key := n.Fun
+		if strings.HasPrefix(n.Fun, "uf_t_") {
+			// uf_t_<pkg.Type>_<name>: uninterpreted function returning a value of that Go type
+			rest := strings.TrimPrefix(n.Fun, "uf_t_")
+			k := strings.LastIndex(rest, "_")
+			if k < 0 {
+				return SV{}, fmt.Errorf("uf_t_<type>_<name> expected, got %s", n.Fun)
+			}
+			t, err := e.lookupType(rest[:k])
+			if err != nil {
+				return SV{}, err
+			}
+			rty = t
+			rs = vc.tt.sort(t)
+		}
+		key := sanitize(n.Fun)
 		if !vc.heapDecl["uf:"+key] {
 			vc.heapDecl["uf:"+key] = true
 			vc.cmd(fmt.Sprintf("(declare-fun %s (%s) %s)", key, strings.Join(sorts, " "), rs))
 		}
-		return SV{T: Term{app(key, ts...), rs}}, nil
+		return SV{T: Term{app(key, ts...), rs}, Ty: rty}, nil
 	}
 	return SV{}, fmt.Errorf("unknown spec function %q", n.Fun)
 }
